@@ -213,8 +213,12 @@ STRING_SERIALIZER(cbor_serialize_string, STRING_DEF_VALID(item), STRING_INDEF_VA
   ((item)->type == CBOR_TYPE_ARRAY ? (AR_META(item).type == _CBOR_METADATA_DEFINITE ? 1 + spec_shortest_argbytes(AR_META(item).end_ptr) : 1) \
    : (item)->type == CBOR_TYPE_MAP ? (MP_META(item).type == _CBOR_METADATA_DEFINITE ? 1 + spec_shortest_argbytes(MP_META(item).end_ptr) : 1) \
    : (item)->type == CBOR_TYPE_TAG ? 1 + spec_shortest_argbytes(TG_META(item).value) : 1)
+#define IS_COMPOSITE(item)                                                                            \
+  ((item)->type == CBOR_TYPE_ARRAY || (item)->type == CBOR_TYPE_MAP || (item)->type == CBOR_TYPE_TAG || \
+   ((item)->type == CBOR_TYPE_BYTESTRING && BS_META(item).type != _CBOR_METADATA_DEFINITE) ||          \
+   ((item)->type == CBOR_TYPE_STRING && ST_META(item).type != _CBOR_METADATA_DEFINITE))
 #define NODE_REQUIRES(item, HDR)                                                                      \
-  __CPROVER_requires(ITEM_R(item) && (unsigned)item->type <= 7u && SER_GHOST_INIT)                    \
+  __CPROVER_requires(ITEM_R(item) && (unsigned)item->type <= 7u && (!IS_COMPOSITE(item) || SER_GHOST_INIT)) \
   __CPROVER_requires(IS_INT(item) ==> INT_VALID(item))                                                \
   __CPROVER_requires(item->type == CBOR_TYPE_FLOAT_CTRL ==> FLOAT_CTRL_VALID(item))                   \
   __CPROVER_requires(item->type == CBOR_TYPE_BYTESTRING ==> (BYTESTRING_DEF_VALID(item) || BYTESTRING_INDEF_VALID(item))) \
